@@ -49,6 +49,14 @@ def slot(spec, i):
     return spec[i].get("of", i)
 
 
+def targets(nd):
+    """Stores a side-effecting producer writes (one index or a list)."""
+    t = nd.get("target")
+    if t is None:
+        return []
+    return list(t) if isinstance(t, (list, tuple)) else [t]
+
+
 def spec_str(spec):
     out = []
     for i, nd in enumerate(spec):
@@ -144,8 +152,8 @@ def scratch(spec, versions, norm):
                 seen[i] = R(v, norm)
             else:
                 seen[i] = v
-                if k == "W":
-                    stored[nd["target"]] = ("w", i, tuple(seen[a] for a in nd.get("args", ())))
+                for t in targets(nd):
+                    stored[t] = ("w", i, tuple(seen[a] for a in nd.get("args", ())))
     return stored, seen
 
 
@@ -208,7 +216,7 @@ def expected_events(spec, ood, outset):
             continue
         if i in outset or any(kind == "a" and j in ex for j, kind in succ[i]):
             reads.add(i)
-    sides = {spec[i]["target"] for i in ex if "target" in spec[i]}
+    sides = {t for i in ex for t in targets(spec[i])}
     return {"calls": ex, "writes": writes, "reads": reads, "sides": sides}
 
 
@@ -336,12 +344,17 @@ class World:
 
         def f(*args):
             world.op("call", i, args)
-            if "target" in nd:
-                tgt = nd["target"]
-                world.op("side", tgt)
-                world.clock += 1
-                world.snap[tgt] = (world.clock, ("w", i, args))
-                world.op("side.done", tgt)
+            tg = targets(nd)
+            if tg:
+                # several targets are written as one atomic step (no cut point between them): a producer of two
+                # files that can be cut between them is a user-level atomicity problem no run can repair
+                world.op("side", tg[0])
+                for tgt in tg:
+                    world.clock += 1
+                    world.snap[tgt] = (world.clock, ("w", i, args))
+                for tgt in tg[1:]:
+                    world.log.append(("side", tgt))
+                world.op("side.done", tg[0])
             world.log.append(("callend", i))
             return ("f", i, args)
 
@@ -593,7 +606,7 @@ def events_for(spec, snap, opts):
             ev.append(("UPDATE", i))
         # "deletions of stored values": values stored by runs (C, D).  A pure source that is
         # missing is absent user input, not a state a run can repair (DESIGN.md, C05 notes).
-        if nd["kind"] in ("C", "D", "K") and snap.get(i) is not None:
+        if nd["kind"] in ("C", "D", "K") and snap.get(i) is not None and not nd.get("keep"):
             ev.append(("DELETE", i))
     return ev
 
